@@ -247,7 +247,7 @@ func (s *sharedSummary) setsShared(fn *ssa.Function, k int) bool {
 		if ei >= 0 && !ir.IsNilConst(r.Results[ei]) {
 			op := r.Results[ei]
 			if call, isCall := op.(*ssa.Call); isCall {
-				if sc := call.Call.StaticCallee(); sc != nil && sc.Pkg != nil && (sc.Pkg.Pkg.Path() == "fmt" || sc.Pkg.Pkg.Path() == "errors") {
+				if sc := ir.Callee(call.Call); sc != nil && sc.Pkg != nil && (sc.Pkg.Pkg.Path() == "fmt" || sc.Pkg.Pkg.Path() == "errors") {
 					continue // constructed error: error path
 				}
 				if nilFactOn(r.Block(), call, false) {
@@ -385,6 +385,10 @@ func runSHAREDPUB(c *Ctx) {
 // ---- ALIAS -------------------------------------------------------------------------
 
 func freshBacked(v ssa.Value, ownBase ssa.Value, ownField string, d int) (bool, string) {
+	return freshBackedE(v, ownBase, ownField, d, nil)
+}
+
+func freshBackedE(v ssa.Value, ownBase ssa.Value, ownField string, d int, env *penv) (bool, string) {
 	if d > 8 {
 		return false, "too deep"
 	}
@@ -404,12 +408,36 @@ func freshBacked(v ssa.Value, ownBase ssa.Value, ownField string, d int) (bool, 
 			}
 			return false, "reslice of another node's ." + f
 		}
-		return freshBacked(x.X, ownBase, ownField, d+1)
+		return freshBackedE(x.X, ownBase, ownField, d+1, env)
 	case *ssa.Call:
 		if b, ok := x.Call.Value.(*ssa.Builtin); ok && b.Name() == "append" {
-			return freshBacked(x.Call.Args[0], ownBase, ownField, d+1)
+			return freshBackedE(x.Call.Args[0], ownBase, ownField, d+1, env)
+		}
+		// a slice helper (removeAt(node.Key, i)): every value it returns, with its parameters bound to the arguments
+		if rets, ne, callee := helperReturns(x, env); rets != nil && d < 6 {
+			for _, rv := range rets {
+				if ok, why := freshBackedE(rv, ownBase, ownField, d+2, ne); !ok {
+					return false, why + " (returned by " + callee.Name() + ")"
+				}
+			}
+			return true, "result of " + callee.Name() + ": backed by its argument or fresh"
 		}
 		return false, "result of a call"
+	case *ssa.Extract:
+		if rets, ne, callee := helperReturns(x, env); rets != nil && d < 6 {
+			for _, rv := range rets {
+				if ok, why := freshBackedE(rv, ownBase, ownField, d+2, ne); !ok {
+					return false, why + " (returned by " + callee.Name() + ")"
+				}
+			}
+			return true, "result of " + callee.Name() + ": backed by its argument or fresh"
+		}
+		return false, "result of a call"
+	case *ssa.Parameter:
+		if a, up, ok := env.lookup(x); ok {
+			return freshBackedE(a, ownBase, ownField, d+1, up)
+		}
+		return false, "a parameter"
 	case *ssa.UnOp:
 		if x.Op == token.MUL {
 			if b, f, _, ok := nodeBaseOfAddr(x.X); ok {
@@ -422,7 +450,7 @@ func freshBacked(v ssa.Value, ownBase ssa.Value, ownField string, d int) (bool, 
 		return false, "loaded slice"
 	case *ssa.Phi:
 		for _, e := range x.Edges {
-			if ok, why := freshBacked(e, ownBase, ownField, d+1); !ok {
+			if ok, why := freshBackedE(e, ownBase, ownField, d+1, env); !ok {
 				return false, why
 			}
 		}
@@ -516,7 +544,7 @@ func runCLONE(c *Ctx) {
 			v := ir.Strip(st.Val)
 			okV := false
 			if ex, isEx := v.(*ssa.Extract); isEx && ex.Index == 0 {
-				if call, isCall := ex.Tuple.(*ssa.Call); isCall && call.Call.StaticCallee() == toShared {
+				if call, isCall := ex.Tuple.(*ssa.Call); isCall && ir.Callee(call.Call) == toShared {
 					okV = true
 				}
 			}
@@ -533,7 +561,7 @@ func runCLONE(c *Ctx) {
 		load := c.P.MastFunc("(*Mast).load")
 		ei := ir.ErrorResultIndex(clone.Signature)
 		for _, ci := range CallsOf(clone) {
-			if load == nil || ci.Common().StaticCallee() != load {
+			if load == nil || ir.Callee(ci.Common()) != load {
 				continue
 			}
 			isRootStore := func(i ssa.Instruction) bool {
@@ -633,7 +661,7 @@ func runCLONE(c *Ctx) {
 			st := w.Instr.(*ssa.Store)
 			v := ir.Strip(st.Val)
 			if ex, ok := v.(*ssa.Extract); ok && ex.Index == 0 {
-				if call, ok := ex.Tuple.(*ssa.Call); ok && call.Call.StaticCallee() == toShared {
+				if call, ok := ex.Tuple.(*ssa.Call); ok && ir.Callee(call.Call) == toShared {
 					// the receiver of the recursive call is the *mastNode found in the ranged link, and the only
 					// way past it is `l.shared`
 					rec = true
@@ -671,7 +699,7 @@ func runCLONE(c *Ctx) {
 				for _, w := range A.Writes {
 					if w.Fn == toShared && w.Field == "Link" && w.Kind == "elem" {
 						if ex2, ok := ir.Strip(w.Instr.(*ssa.Store).Val).(*ssa.Extract); ok {
-							if call, ok := ex2.Tuple.(*ssa.Call); ok && call.Call.StaticCallee() == toShared && ir.Strip(call.Call.Args[0]) == ssa.Value(ex) {
+							if call, ok := ex2.Tuple.(*ssa.Call); ok && ir.Callee(call.Call) == toShared && ir.Strip(call.Call.Args[0]) == ssa.Value(ex) {
 								storeBlocks[w.Instr.Block()] = true
 							}
 						}
